@@ -1004,20 +1004,20 @@ pub fn parsers() -> Vec<Parser> {
         P!("Rans64Decoder/x2", 121, true, false, p_rans2, seeds_rans2, aux_rans::<2>),
         P!("Rans64Decoder/x4", 122, true, false, p_rans4, seeds_rans4, aux_rans::<4>),
         P!("Rans64Decoder/x8", 123, true, false, p_rans8, seeds_rans8, aux_rans::<8>),
-        P!("Dictionary::deserialize", 0, false, true, p_dict_deser, seeds_dict_deser),
+        P!("Dictionary::deserialize", 142, false, true, p_dict_deser, seeds_dict_deser),
         P!("DictionaryCompressor::decompress", 61, false, true, p_dict_decomp, seeds_dict_decomp),
         P!("OptimizedDictionaryCompressor::decompress", 61, false, true, p_odict_decomp, seeds_odict_decomp),
-        P!("SimdLz77Compressor::decompress", 0, false, false, p_simd_lz77, seeds_simd_lz77),
+        P!("SimdLz77Compressor::decompress", 143, false, false, p_simd_lz77, seeds_simd_lz77),
         P!("pa_zip/decode_match", 70, false, true, p_pz_match, seeds_pz_matches),
         P!("pa_zip/decode_matches", 71, false, true, p_pz_matches, seeds_pz_matches),
         P!("PaZipCompressor::decompress", 0, false, false, p_pazip, seeds_pazip),
         P!("ZipOffsetBlobStore::load_from_reader", 91, false, false, p_zip_offset, seeds_zip_offset),
         P!("SortedUintVec::from_bytes", 90, false, false, p_sorted_uint_vec, seeds_sorted_uint_vec),
-        P!("ZReorderMap::open", 0, false, false, p_reorder_map, seeds_reorder_map),
-        P!("MmapVec::open", 0, false, false, p_mmap_vec, seeds_mmap_vec),
+        P!("ZReorderMap::open", 141, false, false, p_reorder_map, seeds_reorder_map),
+        P!("MmapVec::open", 140, false, false, p_mmap_vec, seeds_mmap_vec),
         P!("MmapDataInput", 0, false, false, p_mmap_input, seeds_mmap_input),
         P!("hex_decode_bytes", 80, false, true, p_hex_bytes, seeds_hex),
-        P!("hex_decode", 0, false, true, p_hex_str, seeds_hex),
+        P!("hex_decode", 82, false, true, p_hex_str, seeds_hex),
         P!("hex_decode_to_slice", 81, true, true, p_hex_slice, seeds_hex),
         P!("base64/standard", 0, false, true, p_b64::<0>, seeds_b64::<0>),
         P!("base64/url_safe", 0, false, true, p_b64::<1>, seeds_b64::<1>),
@@ -1033,11 +1033,11 @@ pub fn parsers() -> Vec<Parser> {
         P!("fse_decompress_with_config/fast", 130, false, false, p_fse_cfg::<0>, seeds_fse_cfg::<0>),
         P!("fse_decompress_with_config/high", 130, false, false, p_fse_cfg::<1>, seeds_fse_cfg::<1>),
         P!("fse_decompress_with_config/realtime", 130, false, false, p_fse_cfg::<2>, seeds_fse_cfg::<2>),
-        P!("SimdLz77CompressorX1::decompress", 0, false, false, p_slz_x1, seeds_slz_x1),
-        P!("SimdLz77CompressorX2::decompress", 0, false, false, p_slz_x2, seeds_slz_x2),
-        P!("SimdLz77CompressorX4::decompress", 0, false, false, p_slz_x4, seeds_slz_x4),
-        P!("SimdLz77CompressorX8::decompress", 0, false, false, p_slz_x8, seeds_slz_x8),
-        P!("decompress_with_simd_lz77", 0, false, false, p_slz_global, seeds_simd_lz77),
+        P!("SimdLz77CompressorX1::decompress", 143, false, false, p_slz_x1, seeds_slz_x1),
+        P!("SimdLz77CompressorX2::decompress", 143, false, false, p_slz_x2, seeds_slz_x2),
+        P!("SimdLz77CompressorX4::decompress", 143, false, false, p_slz_x4, seeds_slz_x4),
+        P!("SimdLz77CompressorX8::decompress", 143, false, false, p_slz_x8, seeds_slz_x8),
+        P!("decompress_with_simd_lz77", 143, false, false, p_slz_global, seeds_simd_lz77),
         P!("MemoryMappedInput", 0, false, false, p_mmapped_input, seeds_mmapped_input),
         P!("ContextualHuffmanDecoder/order0/single_symbol_model", 105, true, false, p_ctx_mono::<0>, seeds_ctx_mono::<0>, aux_ctx_mono::<0>, 4),
         P!("ContextualHuffmanDecoder/order1/single_symbol_model", 105, true, false, p_ctx_mono::<1>, seeds_ctx_mono::<1>, aux_ctx_mono::<1>, 5),
